@@ -46,7 +46,7 @@ def edb_value(case):
     return {r: ts for r, ts in case["edb"].items()}
 
 def check(P, cases, wd, label, res, pid, args=("-j1",), env=None, which="final", n_traces=4, rng=None,
-          invariants=("FinalIsModel", "LoopHead", "TempsCleared"), workers=2, tag="ram", sn=None, return_ram=False):
+          invariants=("FinalIsModel", "LoopHead", "TempsCleared"), workers=2, tag="ram", sn=None, return_ram=False, orders=([],)):
     """Returns dict(status=..., states=...).  Violations are appended to res.
     sn: optional function (case, RamProg) -> RamSN record (C09 expectations)"""
     pdir = os.path.join(wd, label)
@@ -64,7 +64,7 @@ def check(P, cases, wd, label, res, pid, args=("-j1",), env=None, which="final",
         return {"status": "no-cases"}
     d = os.path.join(pdir, tag + "_A")
     write_data(d, "RamData", {"RamProg": RP, "RamEDBs": [edb_value(c) for c in usable],
-                              "RamExpect": [{"have": True, "m": c["model"]} for c in usable], "RamTraces": [],
+                              "RamExpect": [{"have": True, "m": c["model"]} for c in usable], "RamTraces": [], "RamOrders": list(orders),
                               "RamSN": [sn(c, RP) if sn else {"have": False, "loops": {}, "att": {}} for c in usable]})
     cfg = os.path.join(d, "A.cfg")
     with open(cfg, "w") as f:
@@ -94,7 +94,7 @@ def check(P, cases, wd, label, res, pid, args=("-j1",), env=None, which="final",
         if traces:
             dt = os.path.join(pdir, tag + "_T")
             write_data(dt, "RamData", {"RamProg": RP, "RamEDBs": [edb_value(c) for c in kept],
-                                       "RamExpect": [{"have": True, "m": c["model"]} for c in kept], "RamTraces": traces,
+                                       "RamExpect": [{"have": True, "m": c["model"]} for c in kept], "RamTraces": traces, "RamOrders": [[]],
                                        "RamSN": [{"have": False, "loops": {}, "att": {}} for c in kept]})
             cfg = os.path.join(dt, "T.cfg")
             with open(cfg, "w") as f:
